@@ -14,7 +14,7 @@ use crate::token::variance::natural::{
     BoundedVariantRange, NaturalRange, OpenedUpperBound, VariantRange,
 };
 use crate::token::variance::ops::{Conjunction, Disjunction, Product};
-use crate::token::walk::{ChildToken, Fold, Forward, ParentToken, Sequencer};
+use crate::token::walk::{self, ChildToken, Fold, Forward, ParentToken, Sequencer, TokenEntry};
 use crate::token::{Boundary, BranchKind, LeafKind};
 
 pub use Boundedness::{Bounded, Unbounded};
@@ -315,17 +315,37 @@ impl Sequencer for TreeExhaustiveness {
         &mut self,
         parent: ParentToken<'i, 't, A>,
     ) -> impl Iterator<Item = ChildToken<'i, 't, A>> {
-        parent.into_tokens().rev().take_while(|token| {
-            token.as_ref().as_leaf().map_or(true, |leaf| {
-                if let Some(Boundary::Separator) = leaf.boundary() {
+        fn is_unbounded(leaf: &LeafKind<'_>) -> bool {
+            if let Some(Boundary::Separator) = leaf.boundary() {
+                true
+            }
+            else {
+                let breadth = self::term::<Breadth>(leaf);
+                let text = self::term::<Text>(leaf);
+                breadth.is_unbounded() && text.is_unbounded()
+            }
+        }
+
+        // A branch that has some bounded leaf token decides exhaustiveness by itself: tokens before
+        // such a branch must not contribute terms, because the text that the branch matches may
+        // end the path.
+        let is_conjunctive = !matches!(parent.as_ref(), BranchKind::Alternation(_));
+        let mut is_bounded = false;
+        parent.into_tokens().rev().take_while(move |token| {
+            if is_bounded {
+                return false;
+            }
+            match token.as_ref().as_leaf() {
+                Some(leaf) => is_unbounded(leaf),
+                _ => {
+                    is_bounded = is_conjunctive
+                        && !walk::forward(*token.as_ref())
+                        .map(TokenEntry::into_token)
+                        .filter_map(|token| token.as_leaf())
+                        .all(is_unbounded);
                     true
-                }
-                else {
-                    let breadth = self::term::<Breadth>(leaf);
-                    let text = self::term::<Text>(leaf);
-                    breadth.is_unbounded() && text.is_unbounded()
-                }
-            })
+                },
+            }
         })
     }
 }
